@@ -23,6 +23,11 @@ func fnBitCount(ctx *cmdContext, args map[string]any) (output respValue, err err
 	// get the optional range args
 	start := 0
 	length := len(strBytes)
+	if length == 0 {
+		// an empty string has no bits to count, and no last position to clamp a range to
+		output.data = respInt(0)
+		return
+	}
 	end := length - 1
 	bitMode := false
 	rangeArg, exists := args["range"].(*orderedMap)
